@@ -46,6 +46,8 @@ package nsqd
 //@   onreturn cmdHandled := cmdHandled + 1
 //@   props C09 C11 C03
 //@   requires validPubCtx(p, client)
+//   (round 4, area E) CheckAuth may re-fetch the authorization: the verified QueryAuthd takes the remote IP from the connection
+//@   requires[connected] client.Conn != nil
 //@   ensures[errors] result1 != nil ==> lSubErr(result1)
 //@   ensures[state-check] old(client.State) != stateInit ==> fatalErr(result1, "E_INVALID")
 //@   ensures[heartbeats-required] client.HeartbeatInterval <= 0 ==> fatalErr(result1, "E_INVALID")
@@ -63,7 +65,7 @@ package nsqd
 //@   ensures[pump-told] result1 == nil ==> lastsent(client.SubEventChan) == client.Channel
 //@   ensures[failed-not-subscribed] result1 != nil ==> client.State == old(client.State) && client.Channel == old(client.Channel)
 //@   ensures[failed-not-registered] result1 != nil && lAddCalls != old(lAddCalls) ==> lAddErr != nil || (lRemoveCalls != old(lRemoveCalls) && lRemoveChan == lAddChan && lRemoveID == lAddID)
-//@   modifies client.State, client.Channel, client.AuthState, authQueries, lastNow, lastAuthQueryOK, authCalls, authOK,
+//@   modifies client.State, client.Channel, client.AuthState, authQueries, lastNow, lastAuthQueryOK, authCalls, authOK, r4EExpiryClock,
 //@        getTopicFrame, Channel.clients, mapstore(map[int64]Consumer), onceSpawns,
 //@        lAddCalls, lAddChan, lAddID, lAddErr, lRemoveCalls, lRemoveChan, lRemoveID, chanstore(*Channel)
 //@   loop 0
@@ -124,10 +126,15 @@ package nsqd
 //@ func (c *clientV2) Auth(secret string) error
 //@   props C11 C09
 //@   requires c != nil
+//   (round 4, area E) preconditions of the now verified QueryAuthd (AUTH gets here only after IsAuthEnabled()); QueryAuthd reads the clock.
+//@   requires[connected] c.nsqd != nil && c.Conn != nil
+//@   requires[auth-configured] len(curOpts(c.nsqd).AuthHTTPAddresses) != 0
 //@   ensures[failed-keeps-state] result != nil ==> c.AuthState == old(c.AuthState)
 //@   ensures[ok-has-state] result == nil ==> c.AuthState != nil
 //@   ensures[one-query] authQueries == old(authQueries) + 1 && lastAuthQueryOK == (result == nil)
-//@   modifies c.AuthSecret, c.AuthState, authQueries, lastAuthQueryOK
+//@   ensures[secret-kept-and-sent] c.AuthSecret == secret && (r4EAnyAuthdCalls != old(r4EAnyAuthdCalls) ==> r4EAnyAuthdSecret == secret)
+//@   ensures[state-is-this-answer] result == nil ==> fresh(c.AuthState) && c.AuthState == r4EAnyAuthdState && c.AuthState.TTL > 0
+//@   modifies c.AuthSecret, c.AuthState, authQueries, lastAuthQueryOK, lastNow
 
 // ---- IDENTIFY\n[4-byte size][JSON] -------------------------------------------------------------------
 // Decision table (C09): state init; the size field is read completely, is in [1, max-body-size] (so the body
